@@ -9,13 +9,15 @@ Does not decide: termination of floods over topologies, timer expiry points, SN 
 from __future__ import annotations
 
 import ast
-import re
 
 from ..prog import AnalysisError, ClassInfo, FuncInfo, dotted, unparse
+from ..absint import MiniEval
 from ..match import CallSummaries, int_lower_bound, pretty
+from .. import sem
 from . import gnutil as G
 
 PROP = "C06"
+BH = "geonet.basic_header.BasicHeader"
 
 
 def run(ctx):
@@ -28,7 +30,9 @@ def run(ctx):
         "location table's always-calls summaries), the DAD call on the decoded source address, a lower bound RHL >= 2 on "
         "the received header and a Basic Header equal to set_rhl(received RHL - 1); the other operands must be the "
         "received common header, the decoded extended header (DE PV replaced only under `LocT tst > packet tst`) and the "
-        "residual payload. Path-universal: holds for every packet sequence because it holds on every path.")
+        "residual payload. Operands are compared as expressions over the handler's own parameters (helper parameters "
+        "are replaced by the arguments of every call site); conditions are compared as canonical atoms. "
+        "Path-universal: holds for every packet sequence because it holds on every path.")
     ctx.declined = ["flood termination over topologies", "timer expiry points / real time", "sequence-number wrap-around",
                     "DPL window length as a value"]
     cs = CallSummaries(P, ctx.flows)
@@ -39,6 +43,7 @@ def run(ctx):
         sinks = G.sinks_of(ctx, h)
         if not sinks:
             raise AnalysisError(f"C06: handler {h.fi.name} has no sink")
+        dec_cx = sem.cx(G.decoded_x(ctx, h))
         for i, s in enumerate(sinks):
             fl = G.flow_for(ctx, s.fi, h)
             st = fl.state_at(s.node)
@@ -48,75 +53,51 @@ def run(ctx):
             in_handler = any(k == "handler" for _, k in fl.enclosing_handlers(s.node))
             ctx.ob("C06.dpd-first", con, f"{disc}:not-in-except", not in_handler,
                    f"{s.kind} sink inside an except handler (a duplicate/DAD rejection must reach no sink)", loc)
-            # ---- DAD before everything
-            dad = cs.called_before(s.fi, fl, st, "Router.duplicate_address_detection")
-            ok = any(a and a[0].endswith(".gn_addr") for a in dad)
-            ctx.ob("C06.dad-first", con, disc, ok,
-                   f"{s.kind} sink " + (f"preceded by DAD on {dad[0][0][:60]}" if ok else
-                                        f"NOT preceded on every path by duplicate_address_detection(<source GN address>) (found: {dad})"),
-                   loc)
+            # ---- DAD before everything, on the SOURCE address of the decoded packet
+            ok, why = G.dad_on_source(ctx, h, s.fi, st)
+            ctx.ob("C06.dad-first", con, disc, ok, f"{s.kind} sink {why}", loc)
             if s.kind == "table-update":
                 continue
-            # ---- DPD before delivery / forward (multi-hop types only)
+            # ---- DPD before delivery / forward (multi-hop types only), on the decoded sequence number
             if h.multi_hop:
-                dpd = cs.called_before(s.fi, fl, st, "LocationTableEntry.check_duplicate_sn")
-                ok = any(a and a[0].endswith(".sn") for a in dpd)
+                want = f"{dec_cx}.sn"
+                seen = []
+                for a in cs.called_before(s.fi, fl, st, "LocationTableEntry.check_duplicate_sn"):
+                    if not a:
+                        continue
+                    try:
+                        node = ast.parse(a[0], mode="eval").body
+                    except SyntaxError:
+                        continue
+                    seen += [sem.cx(x) for x in G.to_handler_terms(ctx, h, s.fi, node)]
+                ok = want in seen
                 ctx.ob("C06.dpd-first", con, disc, ok,
-                       f"{s.kind} sink " + (f"preceded by check_duplicate_sn({dpd[0][0][:60]})" if ok else
-                                            "NOT preceded on every path by the duplicate-packet check on the decoded sequence number"),
-                       loc)
+                       f"{s.kind} sink " + (f"preceded by check_duplicate_sn({want[:60]})" if ok else
+                                            "NOT preceded on every path by the duplicate-packet check on the decoded sequence "
+                                            f"number `{want[:60]}` (checked: {[x[:50] for x in seen]})"), loc)
             # ---- forwards: RHL guard, decrement, copy
             if s.kind in ("send", "deferred-send"):
                 for ops in G.assembled_packets(fl, s, st):
                     bh = ops[0]
                     if not (isinstance(bh, ast.Call) and isinstance(bh.func, ast.Attribute) and bh.func.attr == "encode_to_bytes"):
                         continue
-                    bh_src = pretty(unparse(bh.func.value))
-                    if "basic_header" not in bh_src or "initialize_with" in bh_src:
+                    if _originated(ctx, h, s.fi, bh.func.value):
                         continue        # origination from a handler (LS reply), not a forwarded copy
                     n_fwd += 1
-                    facts = st.facts
-                    if re.fullmatch(r"\w+", bh_src) and bh_src in s.fi.params and s.fi is not h.fi:
-                        # helper receives the header as a parameter: evaluate the argument at every call site
-                        ctxs = []
-                        for caller, call in P.callers_of(s.fi):
-                            cfl = ctx.flows.get(caller, lifted=True)
-                            cst = cfl.state_at(call)
-                            idx = s.fi.params.index(bh_src) - (1 if s.fi.kind == "method" else 0)
-                            arg = call.args[idx] if idx < len(call.args) else next(
-                                (kw.value for kw in call.keywords if kw.arg == bh_src), None)
-                            if arg is not None:
-                                ctxs.append((pretty(unparse(cfl.expand(arg, cst))), cst.facts))
-                        if len(ctxs) == 1:
-                            bh_src, facts = ctxs[0]
-                        elif ctxs:
-                            bad = [c for c in ctxs if not re.fullmatch(r"(\w+)\.set_rhl\(\1\.rhl - 1\)", c[0])]
-                            bh_src, facts = (bad or ctxs)[0]
-                    m = re.fullmatch(r"(\w+)\.set_rhl\(\1\.rhl - 1\)", bh_src)
-                    ctx.ob("C06.rhl", con, f"{disc}:decrement", bool(m),
-                           f"forwarded Basic Header is `{bh_src}`; must be <received>.set_rhl(<received>.rhl - 1)", loc)
-                    recv = m.group(1) if m else "basic_header"
-                    lb = int_lower_bound(P, s.fi.module, facts, f"{recv}.rhl")
-                    ctx.ob("C06.rhl", con, f"{disc}:guard", lb is not None and lb >= 2,
-                           f"forward guarded by received RHL >= {lb}" if lb is not None and lb >= 2 else
-                           f"forward not guarded by `received RHL - 1 > 0` on every path (lower bound established: {lb}); "
-                           f"a packet received with RHL 0 or 1 is re-emitted" +
-                           (" with RHL 255 (set_rhl reduces modulo 256)" if lb is None else ""), loc)
+                    _rhl(ctx, h, s, fl, st, bh.func.value, con, disc, loc)
                     # ---- copy: common header, extended header, payload
-                    rest = [pretty(unparse(o)) for o in ops[1:]]
-                    ok_ch = len(rest) >= 1 and rest[0] == "common_header.encode_to_bytes()"
-                    ctx.ob("C06.copy", con, f"{disc}:common", ok_ch,
-                           f"second operand `{rest[0] if rest else ''}` must be the received common header unchanged", loc)
-                    ok_ext, why = _ext_ok(ctx, h, s, fl, st, ops[2] if len(ops) > 2 else None)
+                    ok_ch, why = _common_ok(ctx, h, s, ops[1] if len(ops) > 1 else None)
+                    ctx.ob("C06.copy", con, f"{disc}:common", ok_ch, why, loc)
+                    ok_ext, why = _ext_ok(ctx, h, s, ops[2] if len(ops) > 2 else None)
                     ctx.ob("C06.copy", con, f"{disc}:extended", ok_ext, why, loc)
-                    pay = rest[2:] if len(rest) > 2 else []
-                    ok_pay = len(pay) == 1 and (re.fullmatch(r"packet(\[\d+:\])+", pay[0]) is not None or pay[0] in ("packet", "payload"))
-                    ctx.ob("C06.copy", con, f"{disc}:payload", ok_pay,
-                           f"payload operand(s) {pay}: must be exactly the residual of the received packet", loc)
-    ctx.floor("C06.dad-first", 20, "sinks")
-    ctx.floor("C06.dpd-first", 30)
+                    ok_pay, why = _payload_ok(ctx, h, s, ops[3:])
+                    ctx.ob("C06.copy", con, f"{disc}:payload", ok_pay, why, loc)
+    ctx.floor("C06.dad-first", 23, "sinks")  # + 2 obligations on the DAD body below
+    ctx.floor("C06.dpd-first", 37)
     if n_fwd < 8:
         raise AnalysisError(f"C06: only {n_fwd} forwarded-copy assemblies recognised (confirmed: 10)")
+    set_rhl_body(ctx)
+    G.check_dad_body(ctx, "C06.dad-first")
     dpl_ring(ctx)
     cbf(ctx, handlers, cs)
 
@@ -126,33 +107,353 @@ def _ord(sinks, s) -> int:
     return same.index(s)
 
 
-def _ext_ok(ctx, h, s, fl, st, op):
+# --------------------------------------------------------------------------------------------
+# provenance helpers
+# --------------------------------------------------------------------------------------------
+def _is_param_of_type(ctx, h, x: ast.AST, cls_name: str) -> bool:
+    """x (handler terms) is a parameter of the handler, never re-bound, annotated with class `cls_name`."""
+    if not (isinstance(x, ast.Name) and x.id in h.fi.params):
+        return False
+    ts = ctx.prog.param_types(h.fi).get(x.id, set())
+    return any(isinstance(t, str) and t in ctx.prog.classes and ctx.prog.classes[t].name == cls_name for t in ts)
+
+
+def _originated(ctx, h, fi, x: ast.AST) -> bool:
+    """The header value is built from scratch (a BasicHeader class-level constructor), not derived from a received one."""
+    root = x
+    while True:
+        if isinstance(root, ast.Call):
+            root = root.func
+        elif isinstance(root, ast.Attribute):
+            root = root.value
+        else:
+            break
+    if isinstance(root, ast.Name):
+        r = ctx.prog.resolve_name(fi.module, root.id)
+        if isinstance(r, ClassInfo):
+            return True
+    return False
+
+
+def _lin(P, mod, e: ast.AST):
+    """e == term + c -> (term node, c); constants -> (None, c)."""
+    c = P.try_fold(mod, e)
+    if isinstance(c, int) and not isinstance(c, bool):
+        return None, c
+    if isinstance(e, ast.BinOp) and isinstance(e.op, (ast.Add, ast.Sub)):
+        lt, lc = _lin(P, mod, e.left)
+        rt, rc = _lin(P, mod, e.right)
+        if rt is None:
+            return lt, lc + (rc if isinstance(e.op, ast.Add) else -rc)
+        if lt is None and isinstance(e.op, ast.Add):
+            return rt, lc + rc
+    return e, 0
+
+
+def _header_sites(ctx, h, fi, fl, st, x: ast.AST, depth: int = 0) -> list:
+    """[(fi, state, X)]: the places where the forwarded Basic Header value is computed.  While the value is a bare
+    parameter of a forwarding helper, descend to the arguments of every call site in the handler's call chain."""
+    P = ctx.prog
+    if isinstance(x, ast.Name) and x.id in fi.params and fi is not h.fi and depth < 6:
+        chain = {f.qual for f in G.chain_of(h)}
+        out = []
+        for caller, call in P.callers_of(fi):
+            if caller.qual not in chain:
+                continue
+            amap = G.bind_args(fi, call) or {}
+            arg = amap.get(x.id)
+            if arg is None:
+                out.append((fi, st, x))
+                continue
+            cfl = ctx.flows.get(caller, lifted=True)
+            cst = cfl.state_at(call)
+            out += _header_sites(ctx, h, caller, cfl, cst, cfl.expand(arg, cst), depth + 1)
+        return out or [(fi, st, x)]
+    return [(fi, st, x)]
+
+
+def _rhl(ctx, h, s, fl, st, hdr_x, con, disc, loc):
+    """Forwarded Basic Header == R.set_rhl(R.rhl - 1) with R the received header, under a guard R.rhl >= 2."""
+    P = ctx.prog
+    setter = P.func(f"{BH}.set_rhl")
+    ok_dec, ok_guard, shown, lbs = True, True, [], []
+    for fi, sst, x in _header_sites(ctx, h, s.fi, fl, st, hdr_x):
+        shown.append(pretty(unparse(x))[:80])
+        recv = None
+        if isinstance(x, ast.Call) and isinstance(x.func, ast.Attribute) and x.func.attr == setter.name:
+            amap = G.bind_args(setter, x) or {}
+            arg = amap.get(setter.params[1]) if len(setter.params) > 1 else None
+            if arg is not None:
+                term, c = _lin(P, fi.module, arg)
+                r = x.func.value
+                if term is not None and c == -1 and sem.same(term, ast.Attribute(value=r, attr="rhl", ctx=ast.Load())):
+                    # R must be the Basic Header the handler received
+                    hs = G.to_handler_terms(ctx, h, fi, r)
+                    if hs and all(_is_param_of_type(ctx, h, y, "BasicHeader") for y in hs):
+                        recv = r
+        if recv is None:
+            ok_dec = False
+            lb = None
+        else:
+            lb = int_lower_bound(P, fi.module, sst.facts, pretty(unparse(recv)) + ".rhl")
+        lbs.append(lb)
+        if lb is None or lb < 2:
+            ok_guard = False
+    ctx.ob("C06.rhl", con, f"{disc}:decrement", ok_dec,
+           f"forwarded Basic Header is `{' | '.join(shown)}`; must be <received>.set_rhl(<received>.rhl - 1) on the Basic "
+           "Header the handler received", loc)
+    ctx.ob("C06.rhl", con, f"{disc}:guard", ok_guard,
+           f"forward guarded by received RHL >= {min(lbs)}" if ok_guard else
+           f"forward not guarded by `received RHL - 1 > 0` on every path (lower bounds established: {lbs}); "
+           f"a packet received with RHL 0 or 1 is re-emitted" +
+           (" with RHL 255 (set_rhl reduces modulo 256)" if any(b is None for b in lbs) else ""), loc)
+
+
+def _common_ok(ctx, h, s, op):
+    if op is None or not (isinstance(op, ast.Call) and isinstance(op.func, ast.Attribute) and op.func.attr == "encode_to_bytes"
+                          and not op.args and not op.keywords):
+        return False, "second operand must be <received common header>.encode_to_bytes()"
+    hs = G.to_handler_terms(ctx, h, s.fi, op.func.value)
+    ok = bool(hs) and all(_is_param_of_type(ctx, h, y, "CommonHeader") for y in hs)
+    return ok, (f"second operand `{pretty(unparse(op))[:60]}` " +
+                ("is the received common header unchanged" if ok else
+                 f"must be the received common header unchanged (resolves to {[pretty(unparse(y))[:50] for y in hs]})"))
+
+
+def _slice_chain(P, mod, e: ast.AST):
+    """e == base[a:][b:c]... -> (base node, start offset, end offset | None); None for other subscripts."""
+    if isinstance(e, ast.Subscript):
+        sl = e.slice
+        if not isinstance(sl, ast.Slice) or sl.step is not None:
+            return None
+        inner = _slice_chain(P, mod, e.value)
+        if inner is None:
+            return None
+        base, start, end = inner
+        lo = 0 if sl.lower is None else P.try_fold(mod, sl.lower)
+        hi = None if sl.upper is None else P.try_fold(mod, sl.upper, default="<nc>")
+        if not isinstance(lo, int) or isinstance(lo, bool) or lo < 0:
+            return None
+        if hi is not None and (not isinstance(hi, int) or isinstance(hi, bool) or hi < 0):
+            return None
+        nstart = start + lo
+        nend = end if hi is None else (start + hi if end is None else min(end, start + hi))
+        return base, nstart, nend
+    return e, 0, None
+
+
+def _header_extent(ctx, h):
+    """(name of the handler parameter the header was decoded from, number of octets decoded)."""
+    dec = G.decoded_x(ctx, h)
+    if not dec.args:
+        return None
+    sc = _slice_chain(ctx.prog, h.fi.module, dec.args[0])
+    if sc is None or not (isinstance(sc[0], ast.Name) and sc[0].id in h.fi.params) or sc[1] != 0 or sc[2] is None:
+        return None
+    return sc[0].id, sc[2]
+
+
+def _payload_ok(ctx, h, s, pay: list):
+    shown = [pretty(unparse(o))[:50] for o in pay]
+    if len(pay) != 1:
+        return False, f"payload operand(s) {shown}: must be exactly the residual of the received packet"
+    ext = _header_extent(ctx, h)
+    if ext is None:
+        return False, "the decoded header is not a leading slice `<param>[0:N]` of the received packet"
+    base, n = ext
+    hs = G.to_handler_terms(ctx, h, s.fi, pay[0])
+    res = []
+    for y in hs:
+        sc = _slice_chain(ctx.prog, h.fi.module, y)
+        res.append(sc is not None and isinstance(sc[0], ast.Name) and sc[0].id == base and sc[1] == n and sc[2] is None)
+    ok = bool(res) and all(res)
+    return ok, (f"payload operand `{shown[0]}` " +
+                (f"is the residual {base}[{n}:] after the {n} decoded header octets" if ok else
+                 f"must be exactly the residual `{base}[{n}:]` of the received packet after the decoded extended header; it is "
+                 f"{[pretty(unparse(y))[:50] for y in hs]} (the undecoded packet would repeat the header octets)"))
+
+
+def _ext_ok(ctx, h, s, op):
     """Extended header operand: the decoded header itself, or a copy that only refreshes DE PV under a strict-newer guard."""
-    if op is None or not (isinstance(op, ast.Call) and isinstance(op.func, ast.Attribute) and op.func.attr == "encode"):
+    P = ctx.prog
+    if op is None or not (isinstance(op, ast.Call) and isinstance(op.func, ast.Attribute) and op.func.attr == "encode"
+                          and not op.args and not op.keywords):
         return False, "third operand must be <extended header>.encode()"
-    src = pretty(unparse(op.func.value))
-    dec = pretty(unparse(fl.expand(h.decode_call, fl.state_at(h.decode_call)))) if s.fi is h.fi else None
-    if src == dec or re.fullmatch(r"\w+", src):
-        return True, f"extended header operand `{src[:70]}` is the decoded header"
-    if "de_pv" in src and (".with_de_pv(" in src or "de_pv=" in src):
-        # the refreshed copy: its construction site must be guarded by `<LocT pv>.tst > <header>.de_pv.tst`
-        guard = None
-        for n in ast.walk(s.fi.node):
-            if isinstance(n, ast.Assign) and ("with_de_pv(" in unparse(n.value) or "de_pv=" in unparse(n.value)) \
-                    and isinstance(n.targets[0], ast.Name) and id(n) in fl.before and "ExtendedHeader" not in unparse(n.value)[:0]:
-                if not ("with_de_pv(" in unparse(n.value) or "__class__(" in unparse(n.value) or "ExtendedHeader(" in unparse(n.value)):
-                    continue
-                facts = fl.before[id(n)].facts
-                g = [f for f in facts if f.kind == "cond" and f.pol and isinstance(f.xnode, ast.Compare)
-                     and isinstance(f.xnode.ops[0], ast.Gt)
-                     and pretty(unparse(f.xnode.left)).endswith(".position_vector.tst")
-                     and pretty(unparse(f.xnode.comparators[0])).endswith(".de_pv.tst")]
-                guard = g[0] if g else False
-        if guard:
-            return True, f"DE PV refreshed only under `{pretty(guard.xkey)[:90]}`"
-        return False, ("forwarded header has its DE PV replaced without the strict guard `<LocT PV>.tst > <packet DE PV>.tst` "
-                       "(TST order is wrap-around aware; a subtraction or >= refreshes with older/equal vectors)")
-    return False, f"extended header operand `{src[:80]}` is neither the decoded header nor a guarded DE-PV refresh"
+    dec = G.decoded_x(ctx, h)
+    dec_cx = sem.cx(dec)
+    hs = G.to_handler_terms(ctx, h, s.fi, op.func.value)
+    if not hs:
+        return False, "extended header operand cannot be traced back to the receive handler"
+    hfl = ctx.flows.get(h.fi, lifted=True)
+    notes = []
+    for y in hs:
+        if sem.cx(y) == dec_cx:
+            notes.append("the decoded header")
+            continue
+        new_pv = _refreshed_de_pv(ctx, h, y, dec_cx)
+        if new_pv is None:
+            return False, (f"extended header operand `{pretty(unparse(y))[:80]}` is neither the decoded header nor a copy of "
+                           "it that replaces only DE PV")
+        # the refreshed copy: its construction site must be guarded by `<LocT pv>.tst > <decoded header>.de_pv.tst`
+        tst = _pv_tst(ctx, h, new_pv)
+        if tst is None:
+            return False, f"the timestamp of the refreshed DE PV `{pretty(unparse(new_pv))[:70]}` cannot be determined"
+        want = sem.atoms(ast.Compare(left=tst, ops=[ast.Gt()], comparators=[
+            ast.Attribute(value=ast.Attribute(value=dec, attr="de_pv", ctx=ast.Load()), attr="tst", ctx=ast.Load())]), True)
+        sites = [d for d in hfl.defs.values() if d.xvalue is not None and d.kind in ("assign", "aug")
+                 and sem.cx(d.xvalue) == sem.cx(y) and id(d.stmt) in hfl.before]
+        if not sites:
+            return False, "construction site of the refreshed extended header not found in the handler"
+        for d in sites:
+            facts = _xfacts(hfl.before[id(d.stmt)])
+            if not all(a in facts for a in want):
+                return False, ("forwarded header has its DE PV replaced without the strict guard `<LocT PV>.tst > <packet DE PV>.tst` "
+                               "(TST order is wrap-around aware; a subtraction or >= refreshes with older/equal vectors); "
+                               f"guards at the construction: {sorted(a for a in facts if '.tst' in a)}")
+        notes.append(f"DE PV refreshed only under `{want[0][:90]}`")
+    return True, "extended header operand is " + " / ".join(sorted(set(notes)))
+
+
+def _xfacts(st) -> set:
+    """Canonical atoms of the guard facts of a state, locals expanded (no atoms over raw local names)."""
+    out = set()
+    for f in st.facts:
+        if f.kind == "cond":
+            out.update(sem.atoms(f.xnode, f.pol))
+    return out
+
+
+def _refreshed_de_pv(ctx, h, y: ast.AST, dec_cx: str):
+    """y == <decoded>.with_de_pv(V) or <decoded class>(every field = <decoded>.field, de_pv=V): returns V."""
+    P = ctx.prog
+    cls = h.ext_cls
+    if not isinstance(y, ast.Call) or cls is None or "de_pv" not in G.ctor_fields(cls):
+        return None
+    f = y.func
+    if isinstance(f, ast.Attribute) and sem.cx(f.value) == dec_cx and f.attr != "__class__":
+        m = cls.find_method(f.attr)
+        # a copy method of the header class taking the new DE PV (its body is covered by the copy-faithful rules of C02)
+        if m is not None and m.kind == "method" and len(m.params) == 2 and len(y.args) + len(y.keywords) == 1:
+            rets = [n for n in ast.walk(m.node) if isinstance(n, ast.Return) and isinstance(n.value, ast.Call)]
+            for r in rets:
+                given = G.bind_ctor(cls, r.value)
+                if given and isinstance(given.get("de_pv"), ast.Name) and given["de_pv"].id == m.params[1] and all(
+                        sem.cx(given.get(fld, ast.Constant(None))) == f"self.{fld}" for fld in G.ctor_fields(cls) if fld != "de_pv"):
+                    amap = G.bind_args(m, y) or {}
+                    return amap.get(m.params[1])
+        return None
+    is_ctor = (isinstance(f, ast.Attribute) and f.attr == "__class__" and sem.cx(f.value) == dec_cx)
+    if not is_ctor:
+        r = P.resolve_expr_entity(h.fi.module, f)
+        is_ctor = r is cls
+    if not is_ctor:
+        return None
+    given = G.bind_ctor(cls, y)
+    if given is None or "de_pv" not in given:
+        return None
+    for fld in G.ctor_fields(cls):
+        if fld == "de_pv":
+            continue
+        if fld not in given or sem.cx(given[fld]) != f"{dec_cx}.{fld}":
+            return None
+    return given["de_pv"]
+
+
+def _pv_tst(ctx, h, pv: ast.AST):
+    """Timestamp expression of a position-vector value: the `tst` argument of a position-vector construction, or <pv>.tst."""
+    P = ctx.prog
+    if isinstance(pv, ast.Call):
+        r = P.resolve_expr_entity(h.fi.module, pv.func)
+        if isinstance(r, ClassInfo) and "tst" in G.ctor_fields(r):
+            given = G.bind_ctor(r, pv)
+            return given.get("tst") if given else None
+        return None
+    return ast.Attribute(value=pv, attr="tst", ctx=ast.Load())
+
+
+# --------------------------------------------------------------------------------------------
+# the body of set_rhl (the call sites above trust that set_rhl(x) stores x)
+# --------------------------------------------------------------------------------------------
+def set_rhl_body(ctx):
+    P = ctx.prog
+    fi = P.func(f"{BH}.set_rhl")
+    ci = fi.cls
+    fl = ctx.flows.get(fi)
+    con = fi.short()
+    if len(fi.params) != 2:
+        raise AnalysisError(f"{fi.qual}: expected one parameter")
+    par = fi.params[1]
+    rets = [(s, st) for k, s, st in fl.exits if k == "return"]
+    if not rets or any(k == "fall" for k, _, _ in fl.exits):
+        ctx.ob("C06.rhl", con, "stores-argument", False, "set_rhl does not return a new header on every path", fi.loc)
+        return
+    for n, (s, st) in enumerate(rets):
+        loc = f"{fi.module.rel}:{s.lineno}"
+        given, implicit_copy = None, False
+        v = s.value
+        if isinstance(v, ast.Call):
+            tg = [t for t in P.call_targets(fi, v, count=False) if isinstance(t, ClassInfo)]
+            if tg and tg[0] is ci:
+                given = G.bind_ctor(ci, v)
+            elif (dotted(v.func) or "").split(".")[-1] == "replace" and v.args and sem.cx(v.args[0]) == fi.params[0]:
+                r = P.resolve_expr_entity(fi.module, v.func)
+                ext = fi.module.imports.get((dotted(v.func) or "").split(".")[0])
+                if r is None and ext is not None and "dataclasses" in ext[1]:
+                    given = {kw.arg: kw.value for kw in v.keywords if kw.arg}
+                    implicit_copy = True
+        if given is None:
+            ctx.ob("C06.rhl", con, "stores-argument", False,
+                   f"set_rhl returns `{unparse(v)[:60] if v is not None else None}`: not a construction of {ci.name}", loc)
+            continue
+        for fld in G.ctor_fields(ci):
+            if fld == "rhl":
+                continue
+            if fld not in given:
+                ctx.ob("C06.copy", con, f"field:{fld}", implicit_copy,
+                       f"{fld} " + ("kept by dataclasses.replace" if implicit_copy else
+                                    "is not passed to the new header: the forwarded copy resets it to its default"), loc)
+                continue
+            x = fl.expand(given[fld], st)
+            ok = sem.cx(x) == f"{fi.params[0]}.{fld}"
+            ctx.ob("C06.copy", con, f"field:{fld}", ok,
+                   f"forwarded Basic Header carries {fld} = `{pretty(unparse(x))[:50]}`" + ("" if ok else f" (must be the received {fld})"), loc)
+        if "rhl" not in given:
+            ctx.ob("C06.rhl", con, "stores-argument", False, "set_rhl does not store its argument into rhl", loc)
+            continue
+        x = fl.expand(given["rhl"], st)
+        bad = None
+        try:
+            for val in range(256):
+                got = MiniEval(P, fi, {par: val}).ev(x)
+                if got != val or isinstance(got, bool):
+                    bad = (val, got)
+                    break
+        except AnalysisError as e:
+            bad = ("?", str(e)[:80])
+        ctx.ob("C06.rhl", con, "stores-argument", bad is None,
+               f"set_rhl(x) stores `{pretty(unparse(x))}`" + (" = x for every 8-bit x (all 256 values evaluated)" if bad is None else
+                                                             f": for x = {bad[0]} it stores {bad[1]} - every forwarded copy then loses "
+                                                             "a different number of hops than the one the call sites compute"), loc)
+
+
+# --------------------------------------------------------------------------------------------
+# duplicate packet list
+# --------------------------------------------------------------------------------------------
+def _deque_with_maxlen(P, ci: ClassInfo, field: str) -> bool:
+    """The field is created as collections.deque(..., maxlen=...) in the constructor (so its length never exceeds maxlen)."""
+    init = ci.find_method("__init__")
+    if init is None:
+        return False
+    for n in ast.walk(init.node):
+        tgt = val = None
+        if isinstance(n, ast.Assign) and len(n.targets) == 1:
+            tgt, val = n.targets[0], n.value
+        elif isinstance(n, ast.AnnAssign):
+            tgt, val = n.target, n.value
+        if isinstance(tgt, ast.Attribute) and tgt.attr == field and isinstance(tgt.value, ast.Name) and tgt.value.id == "self" \
+                and isinstance(val, ast.Call) and (dotted(val.func) or "").split(".")[-1] == "deque":
+            return any(kw.arg == "maxlen" for kw in val.keywords) or len(val.args) >= 2
+    return False
 
 
 def dpl_ring(ctx):
@@ -160,18 +461,23 @@ def dpl_ring(ctx):
     fi = P.func("geonet.location_table.LocationTableEntry.check_duplicate_sn")
     fl = ctx.flows.get(fi)
     con = fi.short()
+    if len(fi.params) != 2:
+        raise AnalysisError(f"{fi.qual}: expected one parameter (the sequence number)")
+    sn = fi.params[1]
     raises = [(s, st) for k, s, st in fl.exits if k == "raise"]
     normal = [st for k, s, st in fl.exits if k in ("fall", "return")]
-    ok_r = bool(raises) and all(any(f.kind == "cond" and f.pol and pretty(f.xkey) == "sn in self.dpl_set" for f in st.facts)
-                                for _, st in raises)
+    member = f"{sn} in self.dpl_set"
+    ok_r = bool(raises) and all(sem.holds(_xfacts(st), member) for _, st in raises)
     ctx.ob("C06.dpl-ring", con, "raise-iff-member", ok_r,
            "DuplicatedPacketException is raised exactly under `sn in self.dpl_set`", fi.loc)
-    ins_before_raise = any(any(f.kind == "call" and (".append(" in f.key or ".add(" in f.key) for f in st.facts) for _, st in raises)
+    ins_before_raise = any(any(f.kind == "call" and isinstance(f.xnode, ast.Call) and isinstance(f.xnode.func, ast.Attribute)
+                               and f.xnode.func.attr in ("append", "add", "appendleft", "insert", "extend", "update")
+                               for f in st.facts) for _, st in raises)
     ctx.ob("C06.dpl-ring", con, "raise-before-insert", not ins_before_raise,
            "the duplicate is rejected before any insertion into the DPL", fi.loc)
-    for need, txt in (("self.dpl_deque.append(sn)", "ring append"), ("self.dpl_set.add(sn)", "set add")):
-        ok = bool(normal) and all(any(f.kind == "call" and pretty(f.xkey) == need for f in st.facts) for st in normal)
-        ctx.ob("C06.dpl-ring", con, txt, ok, f"every accepted SN is recorded by `{need}`", fi.loc)
+    for cont, meth, txt in (("self.dpl_deque", "append", "ring append"), ("self.dpl_set", "add", "set add")):
+        ok = bool(normal) and all(_recorded(st, cont, meth, sn) for st in normal)
+        ctx.ob("C06.dpl-ring", con, txt, ok, f"every accepted SN is recorded by `{cont}.{meth}({sn})`", fi.loc)
     # the only ways an SN leaves / enters the list are the four paired operations (no clear, rebind, slice, remove)
     from ..locks import LockAnalysis
     la = LockAnalysis(ctx)
@@ -190,14 +496,90 @@ def dpl_ring(ctx):
     # eviction pairing
     disc = [c for c in P.calls_in(fi) if isinstance(c.func, ast.Attribute) and c.func.attr == "discard"]
     pops = [c for c in P.calls_in(fi) if isinstance(c.func, ast.Attribute) and c.func.attr == "popleft"]
-    ok = len(disc) == 1 and len(pops) == 1
+    ok = len(disc) == 1 and len(pops) == 1 and len(disc[0].args) == 1
     if ok:
         st = fl.state_at(disc[0])
-        arg = pretty(unparse(fl.expand(disc[0].args[0], st)))
-        ok = arg == "self.dpl_deque.popleft()"
-        g = any(f.kind == "cond" and f.pol and "len(self.dpl_deque) == self.dpl_deque.maxlen" == pretty(f.xkey) for f in fl.state_at(pops[0]).facts)
-        ctx.ob("C06.dpl-ring", con, "evict-when-full", g, "oldest SN evicted only when the ring is full", fi.loc)
+        ok = sem.same(fl.expand(disc[0].args[0], st), fl.expand(pops[0], fl.state_at(pops[0]))) and \
+            sem.cx(disc[0].func.value) == "self.dpl_set" and sem.cx(pops[0].func.value) == "self.dpl_deque"
+        ring = unparse(pops[0].func.value)
+        facts = _xfacts(fl.state_at(pops[0]))
+        full = sem.holds(facts, f"len({ring}) == {ring}.maxlen")
+        if not full and _deque_with_maxlen(P, fi.cls, "dpl_deque"):
+            # a deque created with maxlen never holds more than maxlen items: `>=` is the same event as `==`
+            full = sem.holds(facts, f"len({ring}) >= {ring}.maxlen")
+        ctx.ob("C06.dpl-ring", con, "evict-when-full", full,
+               "oldest SN evicted only when the ring is full" if full else
+               f"the oldest SN is evicted although the ring may not be full (guards: {sorted(facts)})", fi.loc)
     ctx.ob("C06.dpl-ring", con, "evict-paired", ok, "the SN popped from the ring is the one discarded from the set", fi.loc)
+
+
+def _recorded(st, container: str, method: str, arg: str) -> bool:
+    for f in st.facts:
+        if f.kind == "call" and isinstance(f.xnode, ast.Call) and isinstance(f.xnode.func, ast.Attribute) \
+                and f.xnode.func.attr == method and sem.cx(f.xnode.func.value) == container \
+                and len(f.xnode.args) == 1 and not f.xnode.keywords and sem.cx(f.xnode.args[0]) == arg:
+            return True
+    return False
+
+
+# --------------------------------------------------------------------------------------------
+# contention-based forwarding buffer
+# --------------------------------------------------------------------------------------------
+def _call(recv: ast.AST, meth: str, *args) -> ast.Call:
+    return ast.Call(func=ast.Attribute(value=recv, attr=meth, ctx=ast.Load()), args=list(args), keywords=[])
+
+
+def _lookups(buf: ast.AST, key: ast.AST) -> tuple:
+    """(removing lookups, all lookups) that yield None exactly when `key` is not in `buf`."""
+    none = ast.Constant(None)
+    pops = [_call(buf, "pop", key, none)]
+    return pops, pops + [_call(buf, "get", key), _call(buf, "get", key, none)]
+
+
+def _absent_atoms(buf: ast.AST, key: ast.AST) -> set:
+    out = set(sem.atoms(ast.Compare(left=key, ops=[ast.In()], comparators=[buf]), False))
+    for l in _lookups(buf, key)[1]:
+        out.update(sem.atoms(ast.Compare(left=l, ops=[ast.Is()], comparators=[ast.Constant(None)]), True))
+        out.update(sem.atoms(l, False))
+    return out
+
+
+def _present_atoms(buf: ast.AST, key: ast.AST) -> set:
+    out = set(sem.atoms(ast.Compare(left=key, ops=[ast.In()], comparators=[buf]), True))
+    for l in _lookups(buf, key)[1]:
+        out.update(sem.atoms(ast.Compare(left=l, ops=[ast.Is()], comparators=[ast.Constant(None)]), False))
+        out.update(sem.atoms(l, True))
+    return out
+
+
+def _cancel_on_present(ctx, fi: FuncInfo, buf: ast.AST, key: ast.AST) -> tuple:
+    """(ok, why): whenever `key` is in `buf`, `fi` removes the entry and cancels the removed timer:
+    a `.cancel()` on the value popped from buf under key, guarded by nothing but the presence of the key, and no
+    earlier exit for a present key."""
+    P = ctx.prog
+    fl = ctx.flows.get(fi)
+    popped = {sem.cx(_call(buf, "pop", key)), sem.cx(_call(buf, "pop", key, ast.Constant(None)))}
+    present, absent = _present_atoms(buf, key), _absent_atoms(buf, key)
+    cancels = []
+    for c in P.calls_in(fi):
+        if isinstance(c.func, ast.Attribute) and c.func.attr == "cancel" and not c.args:
+            try:
+                st = fl.state_at(c)
+            except AnalysisError:
+                continue
+            if sem.cx(fl.expand(c.func.value, st)) in popped:
+                cancels.append((c, st))
+    if not cancels:
+        return False, f"no `.cancel()` on the timer popped from `{sem.cx(buf)}` under `{sem.cx(key)}`"
+    for c, st in cancels:
+        extra = _xfacts(st) - present
+        if extra:
+            return False, f"the cancel is additionally conditioned on {sorted(extra)}: a buffered copy can survive its duplicate"
+    first = min(c.lineno for c, _ in cancels)
+    for k, s, st in fl.exits:
+        if s is not None and s.lineno < first and not (_xfacts(st) & absent):
+            return False, f"line {s.lineno} leaves the function before the buffered timer is cancelled although the key may be buffered"
+    return True, f"pops `{sem.cx(buf)}` under the key and cancels the popped timer whenever the key is buffered"
 
 
 def cbf(ctx, handlers, cs):
@@ -206,19 +588,30 @@ def cbf(ctx, handlers, cs):
     fl = ctx.flows.get(fi)
     con = fi.short()
     timers = [c for c in P.calls_in(fi) if (dotted(c.func) or "").split(".")[-1] == "Timer"]
+    if not timers:
+        raise AnalysisError("C06: gn_area_cbf_forwarding arms no Timer")
+    # the buffer and the key: the item store that files the armed timer
+    filed = []
+    for d in fl.defs.values():
+        if d.kind == "substore" and d.value is not None and isinstance(d.extra, ast.Subscript) and id(d.stmt) in fl.before:
+            st = fl.before[id(d.stmt)]
+            v = fl.expand(d.value, st)
+            if any(sem.cx(v) == sem.cx(fl.expand(t, fl.state_at(t))) for t in timers):
+                filed.append((d.extra.value, fl.expand(d.extra.slice, st)))
+    if len({(sem.cx(b), sem.cx(k)) for b, k in filed}) != 1:
+        raise AnalysisError(f"C06: the armed CBF timer is filed under {len(filed)} (buffer, key) pairs (expected exactly one)")
+    buf, key = filed[0]
+    absent = _absent_atoms(buf, key)
     for i, c in enumerate(timers):
-        st = fl.state_at(c)
-        ok = any(f.kind == "cond" and (not f.pol) and pretty(f.xkey).endswith("in self._cbf_buffer") for f in st.facts)
+        facts = _xfacts(fl.state_at(c))
+        ok = bool(facts & absent)
         ctx.ob("C06.cbf", con, f"timer#{i}:new-key-only", ok,
-               "a contention timer is armed only when (source, SN) is not buffered yet", f"{fi.module.rel}:{c.lineno}")
-    cancels = [c for c in P.calls_in(fi) if isinstance(c.func, ast.Attribute) and c.func.attr == "cancel"]
-    dup_branch = False
-    for c in cancels:
-        st = fl.state_at(c)
-        if any(f.kind == "call" and "_cbf_buffer.pop(" in f.key for f in st.facts):
-            dup_branch = True
-    ctx.ob("C06.cbf", con, "duplicate-cancels", dup_branch,
-           "a second reception of a buffered (source, SN) pops and cancels the pending timer", fi.loc)
+               "a contention timer is armed only when (source, SN) is not buffered yet" if ok else
+               f"a contention timer is armed on a path where `{sem.cx(key)[:70]}` may already be buffered in {sem.cx(buf)}",
+               f"{fi.module.rel}:{c.lineno}")
+    ok, why = _cancel_on_present(ctx, fi, buf, key)
+    ctx.ob("C06.cbf", con, "duplicate-cancels", ok,
+           "a second reception of a buffered (source, SN): " + why, fi.loc)
     # overhear: the duplicate branch must be reachable for duplicates
     for caller, call in P.callers_of(fi):
         cfl = ctx.flows.get(caller, lifted=True)
@@ -227,13 +620,37 @@ def cbf(ctx, handlers, cs):
         blocked = bool(dpd)
         handled = False
         for h in handlers:
-            if caller in [h.fi] + h.helpers:
-                for n in ast.walk(h.fi.node):
-                    if isinstance(n, ast.ExceptHandler) and n.type is not None and "DuplicatedPacketException" in unparse(n.type):
-                        if any(isinstance(x, ast.Call) and ("cbf" in unparse(x.func).lower()) for b in n.body for x in ast.walk(b)):
+            if caller.qual not in {f.qual for f in G.chain_of(h)}:
+                continue
+            want_keys = {sem.cx(x) for x in G.to_handler_terms(ctx, h, fi, key)}
+            hfl = ctx.flows.get(h.fi, lifted=True)
+            for n in ast.walk(h.fi.node):
+                if not (isinstance(n, ast.ExceptHandler) and n.type is not None):
+                    continue
+                types = n.type.elts if isinstance(n.type, ast.Tuple) else [n.type]
+                if not any(isinstance(P.resolve_expr_entity(h.fi.module, t), ClassInfo)
+                           and P.resolve_expr_entity(h.fi.module, t).name == "DuplicatedPacketException" for t in types):
+                    continue
+                for c in [x for b in n.body for x in ast.walk(b) if isinstance(x, ast.Call)]:
+                    for t in P.call_targets(h.fi, c, count=False):
+                        if not (isinstance(t, FuncInfo) and t.cls is fi.cls and t.kind == "method"):
+                            continue
+                        amap = G.bind_args(t, c) or {}
+                        for p in t.params[1:]:
+                            okb, whyb = _cancel_on_present(ctx, t, buf, ast.Name(id=p, ctx=ast.Load()))
+                            if not okb or p not in amap:
+                                continue
                             handled = True
+                            ctx.ob("C06.cbf-overhear", t.short(), "discards-buffered-copy", True, whyb, t.loc)
+                            got = sem.cx(hfl.expand(amap[p], hfl.state_at(c)))
+                            okk = want_keys == {got}
+                            ctx.ob("C06.cbf-overhear", h.fi.short(), "overhear-key", okk,
+                                   f"the overheard duplicate is looked up under `{got[:90]}`" + ("" if okk else
+                                   f"; the CBF buffer is keyed by `{sorted(want_keys)}`: the lookup never matches and the "
+                                   "buffered copy is re-broadcast although a duplicate was overheard"),
+                                   f"{h.fi.module.rel}:{c.lineno}")
         ctx.ob("C06.cbf-overhear", caller.short(), "duplicate-reaches-cancel", (not blocked) or handled,
                "contention-based forwarding is entered only after check_duplicate_sn accepted the packet, and the "
-               "DuplicatedPacketException handler does not touch the CBF buffer: an overheard duplicate never cancels the "
-               "buffered copy (the cancel branch of gn_area_cbf_forwarding is dead)" if blocked and not handled else
+               "DuplicatedPacketException handler does not remove and cancel the buffered copy: an overheard duplicate never "
+               "cancels it (the cancel branch of gn_area_cbf_forwarding is dead)" if blocked and not handled else
                "duplicates reach the CBF cancel", f"{caller.module.rel}:{call.lineno}")
